@@ -99,8 +99,8 @@ class C08(Prop):
         "datagram, or a datagram carrying exactly the canonical encoding of the denoted OID; strictly valid strings must be accepted; echoed names "
         "render back to the identical text. non-trivial = a boundary arc or a malformed string was used; distinct = the string itself"
     )
-    quick_runs = 3000
-    thorough_runs = 60000
+    quick_runs = 30000
+    thorough_runs = 400000
 
     def families(self, tier):
         return [("strings", 1)]
